@@ -28,6 +28,9 @@ EXPLANATION += ' A64-CFR-BITS, RV-CFR-BITS.'
 EXPLANATION += ' PORT-ENDIAN-PAIR.'
 
 
+CLAIM += (' The dataset read of a compiled x86-64 program - the bytes the prologue generator emits for readReg2 ^ readReg3 and the hand-written v1 / v2 / light-mode pieces - executed on terms performs specification 4.6.2 steps 5-8: read at the old ma, mx (v1) or ma (v2) XORed with the zero-extended value, halves swapped, prefetch at the new mx, item number and saved registers in light mode (X86-DSREAD-HSEM).')
+EXPLANATION += ' X86-DSREAD-HSEM.'
+
 def run(ctx, R):
     F = astq.Facts(ctx, 'K0')
     R.saw(config='K0')
@@ -67,6 +70,7 @@ def run(ctx, R):
     x86hsem.rule_fp_hsem(ctx, R)
     x86loop.rule_loopstore(ctx, R)
     x86loop.rule_loopload(ctx, R)
+    x86loop.rule_dsread(ctx, R)
     a64hsem.rule_hsem(ctx, R)
     a64sem.rule_immhelp(ctx, R)
     a64hsem.rule_mem_hsem(ctx, R)
